@@ -130,9 +130,36 @@ func enclosingLoopInUnit(top *ssa.Function, in ssa.Instruction, d int) *core.Loo
 	return enclosingLoopInUnit(top, site, d+1)
 }
 
+// entryInTop: the instruction of the round step `top` through which `in` is reached: `in` itself when it
+// is in top, else the call (chain) by which top enters the private helper holding it; nil when not unique.
+func entryInTop(top *ssa.Function, in ssa.Instruction, d int) ssa.Instruction {
+	if in.Parent() == top {
+		return in
+	}
+	if d > 3 {
+		return nil
+	}
+	var site ssa.Instruction
+	n := 0
+	for g := range syncUnit(top) {
+		for _, cs := range core.Calls(g) {
+			if c, ok := cs.(*ssa.Call); ok && core.Callee(c) == in.Parent() {
+				site = c
+				n++
+			}
+		}
+	}
+	if n != 1 {
+		return nil
+	}
+	return entryInTop(top, site, d+1)
+}
+
 type SendSite struct {
 	// Sync: the send executes in the round step itself or in a private helper it calls synchronously
 	Sync bool
+	// At: where the send happens in the round step's own control flow (the send, or the call of the helper)
+	At ssa.Instruction
 	Send    *ssa.Send
 	Ctor    *Ctor
 	Call    *ssa.Call
@@ -549,7 +576,11 @@ func extractRound(pr *Protocol, r *Round) {
 							}
 						}
 					}
+					site.At = snd
 					if sync[g] {
+						if e := entryInTop(st, snd, 0); e != nil {
+							site.At = e
+						}
 						site.InLoop = enclosingLoopInUnit(st, snd, 0)
 					} else {
 						for _, l := range loopsOf(snd.Parent()) {
